@@ -16,6 +16,9 @@ def main():
     ap.add_argument('--tier', default=os.environ.get('VERIF_TIER', 'quick'))
     a = ap.parse_args()
     seed = int(os.environ.get('VERIF_SEED', '0') or 0)
+    # second opinion by cvc5 on a sample of the obligations (every 500th in quick, every 25th in
+    # thorough) and on every obligation z3 finds violated
+    os.environ.setdefault('VERIF_CROSS_EVERY', '500' if a.tier == 'quick' else '25')
     pid = a.pid.upper()
     from . import runner
     mod = importlib.import_module('vf.props.%s' % pid.lower())
